@@ -225,8 +225,15 @@ Definition iupac (c : ascii) : list ascii :=
   if Ascii.eqb c "N" then ["A"; "C"; "G"; "T"] else if Ascii.eqb c "-" then ["-"] else [].
 Local Close Scope char_scope.
 
+(** uint8(unicode.ToUpper(rune(c))) on a byte: only a..z change among the bytes that can then
+    be a key of the IUPAC table *)
+Definition upper (c : ascii) : ascii :=
+  let n := nat_of_ascii c in
+  if Nat.leb 97 n && Nat.leb n 122 then ascii_of_nat (n - 32) else c.
+
+(** parsimonyUPPASS at a tip: align.IupacCode[upper(c)], one count per possibility *)
 Definition nt_vec (c : ascii) : vec :=
-  map (fun a => if existsb (Ascii.eqb a) (iupac c) then 1 else 0) nt_alphabet.
+  map (fun a => if existsb (Ascii.eqb a) (iupac (upper c)) then 1 else 0) nt_alphabet.
 
 Fixpoint string_nth (j : nat) (s : string) : option ascii :=
   match s, j with
